@@ -465,7 +465,8 @@ Lemma named_step : forall s res chunk p nm s',
     c_buf (sw_cur s') = pre ++ post /\ end_pos pre = epos e1 /\ is_prefix (hd [] (split_on LF chunk)) post = true /\
     e_ol e1 = p_line p /\ e_oc e1 = p_col p /\ e_ni e1 = Some k /\
     nth_error (nm_all (sw_names s')) (N.to_nat k) = Some nm /\
-    fmap_lookup (sw_fmap s) (p_file p) = Some (e_fi e1) /\ sw_fmap s' = sw_fmap s.
+    fmap_lookup (sw_fmap s) (p_file p) = Some (e_fi e1) /\ sw_fmap s' = sw_fmap s /\
+    e_fi e2 = e_fi e1 /\ e_ol e2 = p_line p /\ e_oc e2 = p_col p + utf16_len nm /\ e_ni e2 = None.
 Proof.
   intros s res chunk p nm s' W Hb H. unfold sw_write_for in H. rewrite Hb in H. unfold bind in H at 1.
   destruct (match sw_fmap s with Some m => nth_error m (N.to_nat (p_file p)) | None => Some (p_file p) end) as [fi|] eqn:Efi; [|discriminate].
@@ -474,7 +475,8 @@ Proof.
   unfold bind in H.
   match type of H with match add_entry _ ?x with _ => _ end = _ => set (e1 := x) in * end.
   destruct (add_entry (sw_map s) e1) as [m1|] eqn:E1; [|discriminate].
-  destruct (uadd (p_col p) (utf16_len nm)) as [endcol|]; [|discriminate].
+  destruct (uadd (p_col p) (utf16_len nm)) as [endcol|] eqn:Eu; [|discriminate].
+  assert (Hend : endcol = p_col p + utf16_len nm) by (unfold uadd in Eu; destruct (_ <=? _); [injection Eu as <-; reflexivity | discriminate]).
   match type of H with match add_entry _ ?x with _ => _ end = _ => set (e2 := x) in * end.
   destruct (add_entry m1 e2) as [m2|] eqn:E2; [|discriminate]. injection H as <-.
   set (c1 := flush (sw_ind s) (sw_cur s)) in *.
@@ -486,7 +488,7 @@ Proof.
   pose proof (winv_entry _ _ e2 m2 names' W3 eq_refl E2 Hc') as W4. cbn [sw_cur sw_ind sw_map sw_names sw_fmap] in W4.
   exists e1, e2, (c_buf c1), (hd [] (split_on LF chunk) ++ y), ni. cbn [sw_cur sw_map sw_names sw_fmap].
   split; [exact W4|]. split; [exact Hy|]. split; [exact (wi_pos _ _ W1)|]. split; [apply is_prefix_app|].
-  repeat split; try reflexivity; try exact Hnth. exact Efi.
+  repeat split; try reflexivity; try exact Hnth; try exact Efi. exact Hend.
 Qed.
 
 Lemma named_write_for_mapped_lemma : forall fmap os s chunk p nm,
@@ -505,7 +507,7 @@ Proof.
   cbn [sw_run_from] in H. unfold bind in H. cbn [sw_step] in H.
   destruct (sw_write_for s1 chunk p (Some nm)) as [s2|] eqn:R2; [|discriminate].
   destruct (winv_run os1 _ _ [] (winv_init fmap) R1) as (res1 & W1 & _ & M1). rewrite app_nil_r in W1.
-  destruct (named_step _ _ _ _ _ _ W1 Hb R2) as (e1 & e2 & pre & post & k & W2 & Hbuf & Hpos & Hpre & Hol & Hoc & Hni & Hnm & Hfi & M2).
+  destruct (named_step _ _ _ _ _ _ W1 Hb R2) as (e1 & e2 & pre & post & k & W2 & Hbuf & Hpos & Hpre & Hol & Hoc & Hni & Hnm & Hfi & M2 & _).
   destruct (winv_run os2 _ _ _ W2 H) as (res3 & W3 & _ & _).
   destruct (run_grows _ _ _ H) as ((x & Hx) & Hn). destruct (Hn (wi_names _ _ W2)) as (ext & Hext).
   exists (rev (res3 ++ e2 :: e1 :: res1)), e1, pre, (post ++ x), k.
@@ -530,3 +532,42 @@ Definition mapped_in (fmap : option (list N)) (st : sw) (ident : str) (p : pos) 
 Lemma mapped_in_of_write_for : forall fmap os st ident p nm,
   sw_run fmap os = Some st -> In (WF ident p (Some nm)) os -> p_builtin p = false -> mapped_in fmap st ident p nm.
 Proof. intros. unfold mapped_in. eapply named_write_for_mapped_lemma; eassumption. Qed.
+
+(** an unnamed (non-builtin) [write_for]: one entry at the cursor *)
+Lemma unnamed_step : forall s res chunk p s',
+  winv s res -> p_builtin p = false -> sw_write_for s chunk p None = Some s' ->
+  exists e1,
+    winv s' (e1 :: res) /\ fmap_lookup (sw_fmap s) (p_file p) = Some (e_fi e1) /\ sw_fmap s' = sw_fmap s /\
+    e_ol e1 = p_line p /\ e_oc e1 = p_col p /\ e_ni e1 = None.
+Proof.
+  intros s res chunk p s' W Hb H. unfold sw_write_for in H. rewrite Hb in H. unfold bind in H at 1.
+  destruct (match sw_fmap s with Some m => nth_error m (N.to_nat (p_file p)) | None => Some (p_file p) end) as [fi|] eqn:Efi; [|discriminate].
+  unfold bind in H.
+  match type of H with match add_entry _ ?x with _ => _ end = _ => set (e1 := x) in * end.
+  destruct (add_entry (sw_map s) e1) as [m1|] eqn:E1; [|discriminate]. injection H as <-.
+  exists e1. cbn [sw_fmap].
+  pose proof (winv_entry _ _ e1 m1 (sw_names s) W eq_refl E1 (wi_names _ _ W)) as W2.
+  split; [exact (winv_move _ _ _ W2 (extends_write (sw_ind s) (sw_cur s) chunk))|].
+  repeat split; try reflexivity. exact Efi.
+Qed.
+
+(** steps that add no entry *)
+Lemma plain_step : forall s o s' res, winv s res -> sw_step s o = Some s' ->
+  match o with WF _ p _ => p_builtin p = true | _ => True end ->
+  winv s' res /\ sw_fmap s' = sw_fmap s.
+Proof.
+  intros s o s' res W H Ho. destruct o as [c|c p name| |]; cbn [sw_step] in H.
+  - injection H as <-. split; [apply (winv_move s res _ W), extends_write | reflexivity].
+  - unfold sw_write_for in H. rewrite Ho in H. injection H as <-.
+    split; [apply (winv_move s res _ W), extends_write | reflexivity].
+  - injection H as <-. split; [destruct W; constructor; assumption | reflexivity].
+  - injection H as <-. split; [destruct W; constructor; assumption | reflexivity].
+Qed.
+
+(** one step: the text and the names table grow *)
+Lemma step_grows : forall s o s', sw_step s o = Some s' -> cache_inv (sw_names s) ->
+  (exists x, c_buf (sw_cur s') = c_buf (sw_cur s) ++ x) /\ (exists ext, nm_all (sw_names s') = nm_all (sw_names s) ++ ext).
+Proof.
+  intros s o s' H Hc. assert (R : sw_run_from s [o] = Some s') by (cbn [sw_run_from]; rewrite H; reflexivity).
+  destruct (run_grows _ _ _ R) as (A & B). split; [exact A | exact (B Hc)].
+Qed.
